@@ -1020,6 +1020,72 @@ def r6_indexing_dropped_only_for_identity(ctx, rid):
             raise _AE(f"{rid}: guard of `return var` in the list branch not recognised: {text!r}")
 
 
+
+def r7_merge_key_is_the_operator_graph(ctx, rid):
+    """cache_func merges a node into an already compiled vectorised node when their cache keys are equal.  The merged node
+    evaluates the cached node's operator graph, so the key must identify the whole operator graph the cached value was built
+    from: `hash(<that graph object>)` (or the object itself).  A hand-made aggregate of component hashes through a set /
+    frozenset collapses duplicates and order - two node types with the same operator *forms* but different multiplicity would be
+    merged (vectorize=True) although vectorize=False keeps them apart."""
+    import ast as _ast
+    from engine import AnalysisError as _AE
+    from engine.util import call_name as _cn, single_def_value as _sdv
+    from engine.srcmodel import walk_shallow as _ws, norm as _norm
+    f = ctx.repo.get_func("pyrates/ir/node.py", "cache_func")
+    stores = [st for st in _ws(f.node) if isinstance(st, _ast.Assign) and len(st.targets) == 1 and isinstance(st.targets[0], _ast.Subscript)
+              and isinstance(st.targets[0].value, _ast.Name) and st.targets[0].value.id == "node_cache"]
+    reads = [n for n in _ws(f.node) if isinstance(n, _ast.Subscript) and isinstance(n.ctx, _ast.Load) and isinstance(n.value, _ast.Name)
+             and n.value.id == "node_cache"]
+    if len(stores) != 1 or not reads:
+        raise _AE(f"{rid}: node_cache store/lookup in cache_func not recognised")
+    st = stores[0]
+    key_names = {_ast.unparse(st.targets[0].slice)} | {_ast.unparse(r.slice) for r in reads}
+    if len(key_names) != 1 or not isinstance(st.targets[0].slice, _ast.Name):
+        raise _AE(f"{rid}: node_cache is indexed by several expressions {sorted(key_names)}")
+    kdef = _sdv(ctx, f, reads[0].slice)
+    if kdef is None:
+        raise _AE(f"{rid}: definition of the cache key `{reads[0].slice.id}` not found")
+    for _ in range(4):          # follow plain aliases: h = graph_key; graph_key = hash(op_graph)
+        if isinstance(kdef, _ast.Name):
+            nxt = _sdv(ctx, f, kdef)
+            if nxt is None:
+                break
+            kdef = nxt
+    # the object the cached value is built from: operators= argument of the constructor whose result is stored
+    vdef = _sdv(ctx, f, st.value) if isinstance(st.value, _ast.Name) else st.value
+    built_from = None
+    if isinstance(vdef, _ast.Call):
+        for k in vdef.keywords:
+            if k.arg == "operators" and isinstance(k.value, _ast.Name):
+                built_from = k.value.id
+    if built_from is None:
+        raise _AE(f"{rid}: cannot find the operator graph the cached node is constructed from")
+    facts = {"key": _ast.unparse(kdef), "value_built_from": built_from}
+    direct = (isinstance(kdef, _ast.Call) and _cn(kdef) == "hash" and len(kdef.args) == 1 and isinstance(kdef.args[0], _ast.Name)
+              and kdef.args[0].id == built_from) or (isinstance(kdef, _ast.Name) and kdef.id == built_from)
+    if direct:
+        ctx.ok(rid, f, st, f"nodes are merged under the hash of the operator graph `{built_from}` the cached node is built from", facts,
+               label="merge key identifies the whole operator graph")
+        return
+    lossy = [n for n in _ast.walk(kdef) if isinstance(n, _ast.Call) and _cn(n) in ("frozenset", "set", "sum", "min", "max", "any", "all", "len")]
+    lossy += [n for n in _ast.walk(kdef) if isinstance(n, (_ast.Set, _ast.SetComp))]
+    lossy += [n for n in _ast.walk(kdef) if isinstance(n, _ast.BinOp) and isinstance(n.op, (_ast.BitXor, _ast.Add, _ast.BitOr, _ast.BitAnd))]
+    if lossy:
+        ctx.violation(rid, f, st, f"the merge key `{_ast.unparse(kdef)}` aggregates component hashes through an order- and duplicate-collapsing "
+                                  f"operation instead of hashing the operator graph `{built_from}`: node types with the same operator forms but "
+                                  f"different multiplicity/order collide and are merged into one vectorised node (vectorize=True differs from "
+                                  f"vectorize=False)", facts, label="merge key identifies the whole operator graph")
+    else:
+        raise _AE(f"{rid}: unrecognised cache key `{_ast.unparse(kdef)}` (neither hash({built_from}) nor a recognised lossy aggregate)")
+
+
+
+def r_perm_identity(ctx, rid):
+    """Index-dropping shortcuts must be guarded by an exact identity test of the index list (shared lint, see _identity_lint)."""
+    from ._identity_lint import permutation_test_as_identity
+    permutation_test_as_identity(ctx, rid)
+
+
 RULES = [
     ("C04-R1", r1_collapse_guard, 8),
     ("C04-R2", r2_append_ranges, 9),
@@ -1027,4 +1093,6 @@ RULES = [
     ("C04-R4", r4_node_ranges, 4),
     ("C04-R5", r5_index_roles, 30),
     ("C04-R6", r6_indexing_dropped_only_for_identity, 1),
+    ("C04-R7", r7_merge_key_is_the_operator_graph, 1),
+    ("C04-R8", r_perm_identity, 1),
 ]
